@@ -601,7 +601,15 @@ func genCase(r *Rng) Input {
 			if r.Chance(1, 2) {
 				amt = fmt.Sprint(r.Range(1, 2000000))
 			}
-			in.Ops = append(in.Ops, Op{K: "undel", V: r.Intn(nvals), Amt: amt})
+			victim := r.Intn(nvals)
+			if amt == "all" && r.Chance(2, 3) { // prefer a validator that tends to vote out of band
+				for v := 0; v < nvals; v++ {
+					if sloppy[v] > sloppy[victim] {
+						victim = v
+					}
+				}
+			}
+			in.Ops = append(in.Ops, Op{K: "undel", V: victim, Amt: amt})
 			if amt == "all" && r.Chance(2, 3) { // let the validator unbond and be removed
 				in.Ops = append(in.Ops, Op{K: "send"}, Op{K: "send"})
 				if r.Chance(1, 2) { // the window ends while the removed validator still has its counter
